@@ -347,10 +347,21 @@ printf("debug> macros_get_char() tokens_get_char(?) ungetc %d %d '%c'\n",
 void macros_strip(char *macro)
 {
   char *s = macro;
+  char quote = 0;
 
-  // Remove ; and // comments.
+  // Remove ; and // comments (not inside "strings" and 'c' constants).
   while (*s != 0)
   {
+    if (quote != 0)
+    {
+      if (*s == '\\' && *(s+1) != 0) { s++; }
+      else if (*s == quote || *s == '\n') { quote = 0; }
+      s++;
+      continue;
+    }
+
+    if (*s == '"' || *s == '\'') { quote = *s; s++; continue; }
+
     if (*s == ';') { *s = 0; break; }
     if (*s == '/' && *(s+1) == '/') { *s = 0; break; }
     s++;
@@ -459,12 +470,26 @@ printf("debug> macros_parse() param count=%d\n", param_count);
   ptr = 0;
   name_test = nullptr;
 
+  // Inside "strings" and 'c' constants a ; or // is not a comment.
+  char quote = 0;
+
   while (true)
   {
     ch = tokens_get_char(asm_context);
 
     // Tabs :(.
     if (ch == '\t') { ch = ' '; }
+
+    if (quote != 0)
+    {
+      if (ch == '\n' || ch == EOF) { quote = 0; }
+      else if (ch == quote && !(ptr > 0 && macro[ptr - 1] == '\\')) { quote = 0; }
+    }
+      else
+    if (ch == '"' || ch == '\'')
+    {
+      quote = ch;
+    }
 
     if (name_test == nullptr)
     {
@@ -501,7 +526,8 @@ printf("debug> macros_parse() name_test='%s' %d\n", name_test, index);
 
     // If there is a comment on this line of the macro, ignore the rest of
     // of the line.
-    if (ch == ';' || (ptr > 0 && ch == '/' && macro[ptr-1] == '/'))
+    if (quote == 0 &&
+        (ch == ';' || (ptr > 0 && ch == '/' && macro[ptr-1] == '/')))
     {
       if (macro[ptr-1] == '/') { ptr--; }
 
@@ -559,7 +585,7 @@ printf("debug> macros_parse() name_test='%s' %d\n", name_test, index);
       }
     }
 
-    if (ch == '*' && ptr > 0 && macro[ptr - 1] == '/')
+    if (quote == 0 && ch == '*' && ptr > 0 && macro[ptr - 1] == '/')
     {
       macros_strip_comment(asm_context);
       ptr--;
